@@ -79,6 +79,12 @@ def saveProgram (atomic : Bool) (target tmp : Path) (encoded : Option Bytes) : L
   | none => []
   | some blob => saveSteps atomic target tmp blob
 
+/-- `JSONCollection._load_from_resource`: open for reading, read, close.  No operation that can
+change any file is issued — a missing file is reported as "no data"; nothing is created, moved or
+removed, whatever else lies in the directory.  (Tied to the code by the directory audit of C17: the
+process-wide tracer must see exactly these operations — none — during every kind of read.) -/
+def loadProgram (_target : Path) : List FsOp := []
+
 /-- one file of a buffer flush: metadata check (`os.stat`), then the save -/
 structure FlushItem where
   target : Path
